@@ -90,7 +90,7 @@ func zzH_C08_api() {
 	// scenarios use one multi-violation configuration and a configured prior state
 	s = zzDrawScenario(zzAllFocus)
 	rich := s.focus == zzFLists || s.focus == zzFPNA || s.focus == zzFDispatch
-	passthrough := rich && zzChoose(3) == 0
+	passthrough := rich && zzChoose(2) == 0
 	m = s.m
 	if passthrough {
 		m = new(Middleware)
